@@ -237,11 +237,8 @@ theorem sc_prov (args : List Fx) (ih : ∀ a ∈ args, FxProv (S := S) (sem := s
         simp only [evalSc, hr]
         split
         · exact key c' h1.1
-        · split
-          · exact ⟨h1.1, .inl ⟨_, rfl⟩⟩
-          · split
-            · exact key c' h1.1
-            · exact ⟨h1.1, .inl ⟨_, rfl⟩⟩
+        · exact ⟨h1.1, .inl ⟨_, rfl⟩⟩
+        · exact ⟨h1.1, .inl ⟨_, rfl⟩⟩
       | exc k n =>
         simp only [evalSc, hr]
         exact ⟨h1.1, h1.2.mono (by simp_all) (by simp_all)⟩
@@ -758,11 +755,8 @@ theorem sc_count (args : List Fx)
         simp only [evalSc, hr]
         split
         · omega
-        · split
-          · simp only; omega
-          · split
-            · omega
-            · simp only; omega
+        · simp only; omega
+        · simp only; omega
       | exc k n => simp only [evalSc, hr]; omega
 
 include F hce in
